@@ -617,7 +617,6 @@ struct Tracer : trompeloeil::tracer {
 
 struct Mock {
   MAKE_MOCK1(f_int, void(int));
-  MAKE_MOCK1(f_str, void(std::string const&));
   MAKE_MOCK1(f_cstr, void(char const*));
   MAKE_MOCK1(f_up, void(std::unique_ptr<int> const&));
   MAKE_MOCK1(f_sp, void(std::shared_ptr<int>));
@@ -627,8 +626,6 @@ struct Mock {
   MAKE_MOCK1(f_deepmap, void(deepmap_t const&));
   MAKE_MOCK1(f_op17, void(Opaque<17> const&));
   MAKE_MOCK1(f_userp, void(UserP));
-  MAKE_MOCK1(f_ows, void(Ows));
-  MAKE_MOCK0(r_int, int());
   MAKE_MOCK0(r_cstr, char const*());
   MAKE_MOCK0(r_vpc, vpc_t());
 };
@@ -646,8 +643,7 @@ template <class T> struct E2E { static constexpr bool has = false, has_exp = fal
   static Exp expect(Mock& m, T const& w) { return NAMED_ALLOW_CALL(m, FN(w)); }                                   \
   static Exp ret(Mock& m, T const& w) { return NAMED_ALLOW_CALL(m, RFN()).RETURN(w); }                            \
   static void call_ret(Mock& m) { (void)m.RFN(); } };
-S_E2E_EXP_RET(int, f_int, r_int)
-S_E2E_EXP(std::string, f_str)
+S_E2E_EXP(int, f_int)
 S_E2E_EXP_RET(cstr, f_cstr, r_cstr)
 S_E2E(up_t, f_up)
 S_E2E(sp_t, f_sp)
@@ -657,7 +653,6 @@ S_E2E(tnull_t, f_tnull)
 S_E2E(deepmap_t, f_deepmap)
 S_E2E(Opaque<17>, f_op17)
 S_E2E_EXP(UserP, f_userp)
-S_E2E(Ows, f_ows)
 
 // =====================================================================================
 // One case
